@@ -7,3 +7,9 @@ for src in ("block data bd\n integer i\nend block   data bd\n", "block data bd\n
     t = str(p(FortranStringReader(src)))
     assert t.splitlines()[-1] == "END BLOCK DATA bd", t
 print("OK")
+
+# F59 (fixed): the same for the two-word keyword ERROR STOP under f2008
+p8 = ParserFactory().create(std="f2008")
+t = str(p8(FortranStringReader("program p\n error   stop 'x'\nend program p\n")))
+assert "ERROR STOP 'x'" in t, t
+print("OK (F59)")
